@@ -739,6 +739,7 @@ def run(res, tier):
     res.rule("BK-5", "target_feature kernels with a `len >> k` trip count have a scalar tail, a fallback to a *_ref kernel, or an explicit multiple-of-lanes check")
     res.rule("BK-7", "an AVX kernel's in-place (`*_assign_avx*`) and out-of-place forms use the same set of arithmetic / logic / compare intrinsics (loads, stores, constant set-ups ignored; a const-generic accumulate twin may add)")
     res.rule("BK-8", "where the reference kernel uses i64::wrapping_mul the AVX kernel of the same trait method does not multiply with _mm256_mul_epi32 (low 32 bits only)")
+    res.rule("FFT-1", "every site of the FFT64 transform (reference and AVX executors, the shared table builder) compares the transform size with the same cut-over constant per direction")
     res.rule("BK-12", "a Hensel lifting x <- x * (2 - p * x) runs until the requested width, or a fixed number of steps that reaches the word width / an asserted bound")
     res.rule("BK-11", "reference power-of-two down-scaling kernels add a rounding bias before the right shift (i64 and i128 alike)")
     res.rule("BK-10", "NTT120 family: an i64 digit is widened to i128 before it is negated / added / subtracted (exact over the whole i64 range)")
@@ -771,6 +772,9 @@ def run(res, tier):
         res.floor("BK-9", "same-name shape functions of the two families with parameter bounds", n9, 1)
         n11 = bk11(p, res)
         res.floor("BK-11", "power-of-two down-scaling kernels", n11, 4, ref_min=4)
+        from .c07 import fft1
+        nf = fft1(p, res)
+        res.floor("FFT-1", "strategy cut-over comparisons", nf, 12, ref_min=8)
         n12 = bk12(p, res)
         res.floor("BK-12", "modular-inverse liftings", n12, 1, ref_min=0)
         n10 = bk10(p, res)
